@@ -333,18 +333,16 @@ package updown
 //@   before call:readCSVToUDLChan#1: assert [c09.target.csv] t_in_type == "csv" && arg(0) == target && arg(1) == cudL
 //@   before call:readFastaToUDLChan#1: assert [c09.target.fasta] t_in_type == "fasta" && arg(0) == target && sameslice(arg(1), refSeq) && arg(2) == cudL
 //@   loop 1:
-//@     invariant len(recvd(cErr)) == 0 && len(recvd(cResults)) == 0 && nQ == len(queries) && len(QResultsArray) == nQ && freshslice(QResultsArray)
+//@     invariant !gErrSeen && !gWriteFailed && len(recvd(cErr)) == 0 && len(recvd(cResults)) == 0 && nQ == len(queries) && len(QResultsArray) == nQ && freshslice(QResultsArray)
 //@   loop 2:
-//@     invariant len(recvd(cErr)) == 0 && len(recvd(cResults)) == 0 && nQ == len(queries) && len(QResultsArray) == nQ && freshslice(QResultsArray)
+//@     invariant !gErrSeen && !gWriteFailed && len(recvd(cErr)) == 0 && len(recvd(cResults)) == 0 && nQ == len(queries) && len(QResultsArray) == nQ && freshslice(QResultsArray)
 //@   loop 3:
-//@     invariant 0 <= i && i <= nQ && len(recvd(cErr)) == 0 && len(recvd(cResults)) == i && nQ == len(queries) && len(QResultsArray) == nQ && freshslice(QResultsArray)
+//@     invariant !gErrSeen && !gWriteFailed && 0 <= i && i <= nQ && len(recvd(cErr)) == 0 && len(recvd(cResults)) == i && nQ == len(queries) && len(QResultsArray) == nQ && freshslice(QResultsArray)
 //@     invariant [c12.slots] forall(j, 0, i, QResultsArray[envat(cResults, j).qidx] == envat(cResults, j))
 //@   before call:writeUpdownTable#1: assert [c12.slots] table && arg(0) == out && forall(k, 0, nQ, QResultsArray[k] == envat(cResults, resultOfTR(k)) && QResultsArray[k].qidx == k)
 //@   before call:writeUpDownCatchment#1: assert [c12.slots] !table && arg(0) == out && forall(k, 0, nQ, QResultsArray[k] == envat(cResults, resultOfTR(k)) && QResultsArray[k].qidx == k)
 //@   ghost gErrSeen bool = false
 //@   ghost gWriteFailed bool = false
-//@   before return#6: assert [dbg6] err != nil
-//@   before return#7: assert [dbg7] err != nil
 //@   before return#6: do gErrSeen = true
 //@   before return#7: do gErrSeen = true
 //@   before return#6: assert [c18.error.first] len(recvd(cErr)) == 1 && err == recvd(cErr)[0]
